@@ -15,6 +15,7 @@
 -/
 import DemesVerif.Proofs.MsAccDefs
 import DemesVerif.Proofs.MsRTTame2
+import DemesVerif.Proofs.MsRT3Tame
 set_option linter.unusedSimpArgs false
 set_option linter.unusedVariables false
 namespace Demes.Proofs.MsAcc
@@ -81,7 +82,8 @@ theorem tailProp_pos {d : Deme} (hpos : ∀ p ∈ d.proportions, 0 < p) {k : Nat
   rw [hg]
   exact (InGen.div_pos hden).2 hp
 
-theorem fragEv_rawEvs {g : Graph} (c : Clauses g) (hx : MsExpressible g = true) (hpt : PulsesTame g = true)
+/-- only the first clause of `PulsesTame` (every pulse proportion below one) is used -/
+theorem fragEv_rawEvs3 {g : Graph} (c : Clauses g) (hx : MsExpressible g = true) (hpb : PulsesBelowOne g = true)
     {N0 : Q} (hN : 0 < N0) {ev : Event Growth} (h : ev ∈ rawEvs g N0) : FragEv ev := by
   cases ev with
   | popSizeChange o t i x =>
@@ -102,7 +104,7 @@ theorem fragEv_rawEvs {g : Graph} (c : Clauses g) (hx : MsExpressible g = true) 
   | split o t i p =>
     cases p with
     | fin y =>
-      have h0 : 0 < y := splitPos_rawEvs c hx hpt h
+      have h0 : 0 < y := splitPos_rawEvs3 c hx hpb h
       refine ⟨h0, ?_⟩
       rcases mem_rawEvs h with h | h | h
       · obtain ⟨_, _, _, _, h'⟩ := mem_sizeEvsAll h
@@ -128,6 +130,10 @@ theorem fragEv_rawEvs {g : Graph} (c : Clauses g) (hx : MsExpressible g = true) 
       · have := migKind_migEvs h; cases this
     | _ => trivial
   | _ => trivial
+
+theorem fragEv_rawEvs {g : Graph} (c : Clauses g) (hx : MsExpressible g = true) (hpt : PulsesTame g = true)
+    {N0 : Q} (hN : 0 < N0) {ev : Event Growth} (h : ev ∈ rawEvs g N0) : FragEv ev :=
+  fragEv_rawEvs3 c hx (pulsesBelowOne_of_tame hpt) hN h
 
 /-! ### a size option and the `-ej` of its population are at different times -/
 
@@ -262,17 +268,17 @@ end
 
 section
 variable {g : Graph} (c : Clauses g) (hx : MsExpressible g = true) (hcs : ConstSizes g = true)
-  (hpt : PulsesTame g = true) {N0 : Q} (hN : 0 < N0)
-include c hx hcs hpt hN
+  (hpb : PulsesBelowOne g = true) {N0 : Q} (hN : 0 < N0)
+include c hx hcs hpb hN
 
 /-- every option of the command is a `fragCmd` -/
-theorem fragCmd_finalEvs {e : Event Growth} (he : e ∈ finalEvs g N0) : fragCmd (cmdOfG e) = true := by
+theorem fragCmd_finalEvs3 {e : Event Growth} (he : e ∈ finalEvs g N0) : fragCmd (cmdOfG e) = true := by
   refine fragCmd_of (evRT_finalEvs c hx hcs hN e he) ?_
   obtain ⟨e', he', rfl⟩ := List.mem_map.1 he
-  exact fragEv_scale N0 (fragEv_rawEvs c hx hpt hN ((mem_sortBy _).1 he'))
+  exact fragEv_scale N0 (fragEv_rawEvs3 c hx hpb hN ((mem_sortBy _).1 he'))
 
 /-- one time group of the command, read after the options `pre` -/
-theorem groupFrag_group {pre grp post : List (Event Growth)} (hF : finalEvs g N0 = pre ++ grp ++ post)
+theorem groupFrag_group3 {pre grp post : List (Event Growth)} (hF : finalEvs g N0 = pre ++ grp ++ post)
     (hne : grp ≠ []) (hsame : ∀ a ∈ grp, ∀ b ∈ grp, evT a = evT b)
     (hpre : ∀ a ∈ pre, ∀ b ∈ grp, evT a < evT b) (hpost : ∀ a ∈ grp, ∀ b ∈ post, evT a < evT b) :
     groupFrag (g.demes.length + ((pre.map cmdOfG).filter isSplitC).length) (grp.map cmdOfG) = true := by
@@ -305,7 +311,7 @@ theorem groupFrag_group {pre grp post : List (Event Growth)} (hF : finalEvs g N0
   · rw [List.all_eq_true]
     intro cm hcm
     obtain ⟨e, he, rfl⟩ := List.mem_map.1 hcm
-    exact fragCmd_finalEvs c hx hcs hpt hN (hmem e he)
+    exact fragCmd_finalEvs3 c hx hcs hpb hN (hmem e he)
   · apply noSizeAtJoinG_of
     intro a ha b hb t t' i j i' x r hja hsb hii
     exact size_join_time c hx hN (hmem a ha) (hmem b hb) hja hsb hii (hsame a ha b hb)
@@ -319,7 +325,7 @@ theorem groupFrag_group {pre grp post : List (Event Growth)} (hF : finalEvs g N0
     exact (goodXs_dps c).mem x (List.mem_filter.1 hx').1
 
 /-- the time groups `G`, read after the options `pre` -/
-theorem groupsFrag_groups : ∀ (G : List (List (Event Growth))) (pre : List (Event Growth)),
+theorem groupsFrag_groups3 : ∀ (G : List (List (Event Growth))) (pre : List (Event Growth)),
     finalEvs g N0 = pre ++ G.flatten → GroupsOK G →
     (∀ a ∈ pre, ∀ grp ∈ G, ∀ b ∈ grp, evT a < evT b) →
     groupsFrag (g.demes.length + ((pre.map cmdOfG).filter isSplitC).length) (G.map (List.map cmdOfG)) = true
@@ -332,9 +338,9 @@ theorem groupsFrag_groups : ∀ (G : List (List (Event Growth))) (pre : List (Ev
       intro a ha b hb
       obtain ⟨g2, hg2, hb2⟩ := List.mem_flatten.1 hb
       exact hinc.1 g2 hg2 a ha b hb2
-    have h1 := groupFrag_group c hx hcs hpt hN hF' hne hsame
+    have h1 := groupFrag_group3 c hx hcs hpb hN hF' hne hsame
       (fun a ha b hb => hsep a ha grp List.mem_cons_self b hb) hpost
-    have h2 := groupsFrag_groups rest (pre ++ grp) (by rw [hF'])
+    have h2 := groupsFrag_groups3 rest (pre ++ grp) (by rw [hF'])
       ⟨hinc.2, fun g2 hg2 => hok.same g2 (List.mem_cons_of_mem _ hg2)⟩ (by
         intro a ha g2 hg2 b hb
         rcases List.mem_append.1 ha with ha | ha
@@ -346,10 +352,36 @@ theorem groupsFrag_groups : ∀ (G : List (List (Event Growth))) (pre : List (Ev
 
 end
 
-/-- every time group of the command `to_ms` prints for a valid ms-expressible constant-size graph with tame
-pulses satisfies `groupFrag` -/
-theorem groupsFrag_finalEvs {g : Graph} (c : ToMs.Clauses g) (hx : MsExpressible g = true) (hcs : ConstSizes g = true)
-    (hpt : PulsesTame g = true) {N0 : Q} (hN : 0 < N0) (samples : Option (List Int)) :
+/-! the same from `PulsesTame` -/
+section
+variable {g : Graph} (c : Clauses g) (hx : MsExpressible g = true) (hcs : ConstSizes g = true)
+  (hpt : PulsesTame g = true) {N0 : Q} (hN : 0 < N0)
+include c hx hcs hpt hN
+
+/-- every option of the command is a `fragCmd` -/
+theorem fragCmd_finalEvs {e : Event Growth} (he : e ∈ finalEvs g N0) : fragCmd (cmdOfG e) = true :=
+  fragCmd_finalEvs3 c hx hcs (pulsesBelowOne_of_tame hpt) hN he
+
+/-- one time group of the command, read after the options `pre` -/
+theorem groupFrag_group {pre grp post : List (Event Growth)} (hF : finalEvs g N0 = pre ++ grp ++ post)
+    (hne : grp ≠ []) (hsame : ∀ a ∈ grp, ∀ b ∈ grp, evT a = evT b)
+    (hpre : ∀ a ∈ pre, ∀ b ∈ grp, evT a < evT b) (hpost : ∀ a ∈ grp, ∀ b ∈ post, evT a < evT b) :
+    groupFrag (g.demes.length + ((pre.map cmdOfG).filter isSplitC).length) (grp.map cmdOfG) = true :=
+  groupFrag_group3 c hx hcs (pulsesBelowOne_of_tame hpt) hN hF hne hsame hpre hpost
+
+/-- the time groups `G`, read after the options `pre` -/
+theorem groupsFrag_groups : ∀ (G : List (List (Event Growth))) (pre : List (Event Growth)),
+    finalEvs g N0 = pre ++ G.flatten → GroupsOK G →
+    (∀ a ∈ pre, ∀ grp ∈ G, ∀ b ∈ grp, evT a < evT b) →
+    groupsFrag (g.demes.length + ((pre.map cmdOfG).filter isSplitC).length) (G.map (List.map cmdOfG)) = true :=
+  groupsFrag_groups3 c hx hcs (pulsesBelowOne_of_tame hpt) hN
+
+end
+
+/-- every time group of the command `to_ms` prints for a valid ms-expressible constant-size graph whose pulse
+proportions are below one satisfies `groupFrag` -/
+theorem groupsFrag_finalEvs3 {g : Graph} (c : ToMs.Clauses g) (hx : MsExpressible g = true) (hcs : ConstSizes g = true)
+    (hpb : PulsesBelowOne g = true) {N0 : Q} (hN : 0 < N0) (samples : Option (List Int)) :
     groupsFrag (prOf (ToMs.headerOf g samples) (ToMs.finalEvs g N0)).npop
       (Demes.Spec.C08.cmdGroups (prOf (ToMs.headerOf g samples) (ToMs.finalEvs g N0))) = true := by
   have hn : (prOf (headerOf g samples) (finalEvs g N0)).npop = g.demes.length := by
@@ -360,10 +392,29 @@ theorem groupsFrag_finalEvs {g : Graph} (c : ToMs.Clauses g) (hx : MsExpressible
     · simp [h1]
     · simp [h1]; omega
   rw [hn, cmdGroups_prOf _ _ (evRT_finalEvs c hx hcs hN) (sorted_finalEvs c hx hN)]
-  have := groupsFrag_groups c hx hcs hpt hN (groupsByTime (finalEvs g N0)) []
+  have := groupsFrag_groups3 c hx hcs hpb hN (groupsByTime (finalEvs g N0)) []
     (by rw [flatten_groupsByTime]; rfl) (groupsOK_groupsByTime _ (sorted_byQ_finalEvs c hx hN))
     (fun a ha => by cases ha)
   simpa using this
+
+/-- every time group of the command `to_ms` prints for a valid ms-expressible constant-size graph with tame
+pulses satisfies `groupFrag` -/
+theorem groupsFrag_finalEvs {g : Graph} (c : ToMs.Clauses g) (hx : MsExpressible g = true) (hcs : ConstSizes g = true)
+    (hpt : PulsesTame g = true) {N0 : Q} (hN : 0 < N0) (samples : Option (List Int)) :
+    groupsFrag (prOf (ToMs.headerOf g samples) (ToMs.finalEvs g N0)).npop
+      (Demes.Spec.C08.cmdGroups (prOf (ToMs.headerOf g samples) (ToMs.finalEvs g N0))) = true :=
+  groupsFrag_finalEvs3 c hx hcs (pulsesBelowOne_of_tame hpt) hN samples
+
+/-- `groupsFrag_finalEvs3` for the command of `to_ms graph`: hypotheses on the graph itself, `PulsesBelowOne`
+instead of `PulsesTame` -/
+theorem groupsFrag_toMs3 {graph : Graph} (hv : validGraph graph = true) (hx : MsExpressible graph = true)
+    (hcs : ConstSizes graph = true) (hpb : PulsesBelowOne graph = true) {N0 : Q} (hN : 0 < N0)
+    (samples : Option (List Int)) :
+    groupsFrag (prOf (ToMs.headerOf (inGenerations graph) samples) (ToMs.finalEvs (inGenerations graph) N0)).npop
+      (Demes.Spec.C08.cmdGroups (prOf (ToMs.headerOf (inGenerations graph) samples) (ToMs.finalEvs (inGenerations graph) N0)))
+        = true :=
+  groupsFrag_finalEvs3 (clauses_of_valid (InGen.inGenerations_valid graph hv)) (by rw [expr_inGen]; exact hx)
+    (by rw [constSizes_inGen]; exact hcs) (by rw [pulsesBelowOne_inGen_of_valid hv]; exact hpb) hN samples
 
 /-- `groupsFrag_finalEvs` for the command of `to_ms graph`: hypotheses on the graph itself -/
 theorem groupsFrag_toMs {graph : Graph} (hv : validGraph graph = true) (hx : MsExpressible graph = true)
@@ -371,8 +422,7 @@ theorem groupsFrag_toMs {graph : Graph} (hv : validGraph graph = true) (hx : MsE
     groupsFrag (prOf (ToMs.headerOf (inGenerations graph) samples) (ToMs.finalEvs (inGenerations graph) N0)).npop
       (Demes.Spec.C08.cmdGroups (prOf (ToMs.headerOf (inGenerations graph) samples) (ToMs.finalEvs (inGenerations graph) N0)))
         = true :=
-  groupsFrag_finalEvs (clauses_of_valid (InGen.inGenerations_valid graph hv)) (by rw [expr_inGen]; exact hx)
-    (by rw [constSizes_inGen]; exact hcs) (by rw [pulsesTame_inGen_of_valid hv]; exact hpt) hN samples
+  groupsFrag_toMs3 hv hx hcs (pulsesBelowOne_of_tame hpt) hN samples
 
 /-! ### `groupsFrag` is not vacuous: it fails on hand-written groups -/
 
@@ -393,5 +443,6 @@ example : groupsFrag 2 [[.split 1 1 1, .join 1 3 2]] = false := by decide +kerne
 #print axioms groupFrag_group
 #print axioms groupsFrag_finalEvs
 #print axioms groupsFrag_toMs
+#print axioms groupsFrag_toMs3
 
 end Demes.Proofs.MsAcc
